@@ -152,12 +152,12 @@ def lake(args, timeout=3600):
 
 
 def stage_A(plugin, tier, scratch):
+    """caller holds the Lean build lock (regeneration and build must be one critical section)"""
     res = {'ok': True, 'build_ok': True, 'driver_ok': True, 'obligations': [], 'failed': [], 'axioms': {},
            'errors': [], 'forbidden': [], 'leanchecker': None}
     mods = list(plugin.PROOF_MODULES)
     driver = getattr(plugin, 'DRIVER', None)
-    with open(os.path.join(LEAN, '.build.lock'), 'w') as lk:
-        fcntl.flock(lk, fcntl.LOCK_EX)
+    if True:
         t0 = time.time()
         # model + driver first (so that a broken proof does not hide a working driver)
         if driver:
@@ -447,14 +447,20 @@ def run_check(plugin, pid, seed, tier, args, scratch, t_start):
 
     # ---- G
     gen_info = {}
-    if hasattr(plugin, 'regen'):
-        with open(os.path.join(LEAN, '.build.lock'), 'w') as lk:
-            fcntl.flock(lk, fcntl.LOCK_EX)
+    with open(os.path.join(LEAN, '.build.lock'), 'w') as lk:
+        # G and A are one critical section: another check (possibly against another working tree) must not
+        # regenerate model data between this run's regeneration and its build
+        fcntl.flock(lk, fcntl.LOCK_EX)
+        if hasattr(plugin, 'regen'):
             gen_info = plugin.regen(ctx) or {}
-        log('[%s] G regenerated: %s' % (pid, json.dumps(gen_info)[:300]))
-
-    # ---- A
-    A = stage_A(plugin, tier, scratch)
+            log('[%s] G regenerated: %s' % (pid, json.dumps(gen_info)[:300]))
+        # ---- A
+        A = stage_A(plugin, tier, scratch)
+        # the driver binary is used after the lock is released: keep a private copy
+        if getattr(plugin, 'DRIVER', None):
+            src_bin = os.path.join(LEAN, '.lake', 'build', 'bin', plugin.DRIVER)
+            if os.path.exists(src_bin):
+                shutil.copy2(src_bin, os.path.join(scratch, plugin.DRIVER))
     log('[%s] A build_ok=%s driver_ok=%s obligations=%d failed=%d forbidden=%d (%.1fs)' % (
         pid, A['build_ok'], A['driver_ok'], len(A['obligations']), len(A['failed']), len(A['forbidden']), A.get('build_s', 0)))
     for e in A['errors'][:10]:
@@ -475,7 +481,11 @@ def run_check(plugin, pid, seed, tier, args, scratch, t_start):
             rp = write_replay(pid, seed, tier, 'H', 'harness build', [], err, 'harness does not compile against the working tree')
             log('VIOLATION property=%s replay=%s no-failing-input-found' % (pid, rp))
             return 1
-    model_exe = os.path.join(LEAN, '.lake', 'build', 'bin', plugin.DRIVER) if getattr(plugin, 'DRIVER', None) else None
+    model_exe = None
+    if getattr(plugin, 'DRIVER', None):
+        model_exe = os.path.join(scratch, plugin.DRIVER)
+        if not os.path.exists(model_exe):
+            model_exe = os.path.join(LEAN, '.lake', 'build', 'bin', plugin.DRIVER)
     ctx['A'] = A
     ctx['gen_info'] = gen_info
 
